@@ -620,7 +620,10 @@ func (g *gen) step() (Step, bool) {
 				used[k] = true
 				switch k {
 				case 0:
-					p = append(p, setting(1, []uint32{0, 100, 4096, 65536}[r.Intn(4)])...)
+					// never below 4096: a shrink followed by a grow makes the server's encoder emit two
+					// table-size updates, which the harness's own x/net v0.19.0 decoder rejects (D6 is
+					// present in that release); HPACK table behaviour is C18's business
+					p = append(p, setting(1, []uint32{4096, 8192, 65536}[r.Intn(3)])...)
 				case 1:
 					p = append(p, setting(2, uint32(r.Intn(2)))...)
 				case 2:
